@@ -239,7 +239,7 @@ Fixpoint mark_consumed (l : list crec) (start len : N) : list crec :=
 (* run_on: apply every command in recorded order; errors from dead entities are ignored; returns
    the world, the buffer as run_on leaves it (or as it is when a command panics), the spawned
    handles, everything dropped, and the panic class if hecs panicked *)
-Fixpoint cm_run (u : universe) (fuel : nat) (w : world) (c : cmdbuf) (cmds : list cmd)
+Fixpoint cm_run (u : universe) (fuel : nat) (w : world) (c : cmdbuf) (i : N) (cmds : list cmd)
          (spawned : list entity) (dropped : list (tid * val))
   : world * cmdbuf * list entity * list (tid * val) * option N :=
   match fuel with
@@ -251,6 +251,8 @@ Fixpoint cm_run (u : universe) (fuel : nat) (w : world) (c : cmdbuf) (cmds : lis
           (w, {| cm_cmds := []; cm_arena := {| ar_size := ar_size (cm_arena c); ar_align := ar_align (cm_arena c); ar_cursor := 0 |};
                  cm_comps := [] |}, spawned, dropped, None)
       | x :: rest =>
+          (* mem::replace(&mut self.cmds[i], Cmd::Despawn(Entity::DANGLING)) *)
+          let c := {| cm_cmds := updN (cm_cmds c) i (CDespawn DANGLING); cm_arena := cm_arena c; cm_comps := cm_comps c |} in
           match x with
           | CSpawnOrInsert target start len =>
               let slice := takeN len (dropN start (cm_comps c)) in
@@ -259,26 +261,26 @@ Fixpoint cm_run (u : universe) (fuel : nat) (w : world) (c : cmdbuf) (cmds : lis
               match target with
               | None =>
                   match w_spawn u w b with
-                  | Done (w', h) => cm_run u f w' c' rest (spawned ++ [h]) dropped
+                  | Done (w', h) => cm_run u f w' c' (N.succ i) rest (spawned ++ [h]) dropped
                   | Panic p => (w, c', spawned, dropped ++ b_items b, Some p)
                   end
               | Some h =>
                   match w_insert u w h b with
-                  | Done (w', WOk d) => cm_run u f w' c' rest spawned (dropped ++ d)
-                  | Done (w', _) => cm_run u f w' c' rest spawned (dropped ++ b_items b)
+                  | Done (w', WOk d) => cm_run u f w' c' (N.succ i) rest spawned (dropped ++ d)
+                  | Done (w', _) => cm_run u f w' c' (N.succ i) rest spawned (dropped ++ b_items b)
                   | Panic p => (w, c', spawned, dropped ++ b_items b, Some p)
                   end
               end
           | CRemove h key ts =>
               match w_remove u w h key ts with
-              | Done (w', WOk taken) => cm_run u f w' c rest spawned (dropped ++ taken)   (* `let _ =` drops the bundle *)
-              | Done (w', _) => cm_run u f w' c rest spawned dropped
+              | Done (w', WOk taken) => cm_run u f w' c (N.succ i) rest spawned (dropped ++ taken)   (* `let _ =` drops the bundle *)
+              | Done (w', _) => cm_run u f w' c (N.succ i) rest spawned dropped
               | Panic p => (w, c, spawned, dropped, Some p)
               end
           | CDespawn h =>
               match w_despawn w h with
-              | Done (w', WOk d) => cm_run u f w' c rest spawned (dropped ++ d)
-              | Done (w', _) => cm_run u f w' c rest spawned dropped
+              | Done (w', WOk d) => cm_run u f w' c (N.succ i) rest spawned (dropped ++ d)
+              | Done (w', _) => cm_run u f w' c (N.succ i) rest spawned dropped
               | Panic p => (w, c, spawned, dropped, Some p)
               end
           end
@@ -286,4 +288,4 @@ Fixpoint cm_run (u : universe) (fuel : nat) (w : world) (c : cmdbuf) (cmds : lis
   end.
 
 Definition cm_run_on (u : universe) (w : world) (c : cmdbuf) :=
-  cm_run u (S (length (cm_cmds c))) w c (cm_cmds c) [] [].
+  cm_run u (S (length (cm_cmds c))) w c 0 (cm_cmds c) [] [].
